@@ -1827,7 +1827,7 @@ func (b *HelloBody) decodeFromBytes(data []byte, version uint8, software Softwar
 	}
 	b.redistDefault = RouteType(data[0])
 	if version > 3 { // frr
-		if len(data) < 3+1 {
+		if len(data) < 3 {
 			return errors.New("not all ZAPI message body")
 		}
 		b.instance = binary.BigEndian.Uint16(data[1:3])
@@ -1839,6 +1839,9 @@ func (b *HelloBody) decodeFromBytes(data []byte, version uint8, software Softwar
 			b.receiveNotify = data[7]
 			b.synchronous = data[8]
 		} else if version > 4 {
+			if len(data) < 4 {
+				return errors.New("not all ZAPI message body")
+			}
 			b.receiveNotify = data[3]
 		}
 	}
